@@ -611,6 +611,7 @@ static size_t copy_chars (UCHAR* from, UCHAR* to, size_t count, interactive_t* i
 
   size_t i;
   UCHAR *start = to;
+  object_t *user_ob = ip->ob;
 
   /* a simple state-machine that processes TELNET commands */
   for (i = 0; i < count; i++)
@@ -780,6 +781,8 @@ static size_t copy_chars (UCHAR* from, UCHAR* to, size_t count, interactive_t* i
                     break;
                   }
                 }
+              if (user_ob->interactive != ip)
+                return (size_t) -1;	/* the callback destructed or disconnected the user: ip is gone */
               ip->state = TS_DATA;
               break;
             }
@@ -2015,7 +2018,12 @@ static void get_user_data (interactive_t* ip, io_event_t* evt) {
            * process suboption negotiations (TTYPE, NAWS, LINEMODE), etc.
            * copy_chars() implements the TELNET state machine.
            */
-          ip->text_end += copy_chars ((UCHAR *) buf, (UCHAR *) ip->text + ip->text_end, num_bytes, ip);
+          {
+            size_t copied = copy_chars ((UCHAR *) buf, (UCHAR *) ip->text + ip->text_end, num_bytes, ip);
+            if (copied == (size_t) -1)
+              return;		/* ip was freed inside a telnet callback */
+            ip->text_end += copied;
+          }
           opt_trace (TT_COMM|3, "Command buffer contains %d characters\n", ip->text_end - ip->text_start);
           /*
            * now, ip->text_end is just after the last character read. If the last character
@@ -2043,6 +2051,7 @@ static void get_user_data (interactive_t* ip, io_event_t* evt) {
           {
             char *nl, *str;
             char *p = ip->text + ip->text_start;
+            object_t *user_ob = ip->ob;
 
             /* append to the partial line kept from earlier reads */
             memcpy (ip->text + ip->text_end, buf, num_bytes);
@@ -2059,6 +2068,8 @@ static void get_user_data (interactive_t* ip, io_event_t* evt) {
                     push_malloced_string (str);
                     apply (APPLY_PROCESS_INPUT, ip->ob, 1, ORIGIN_DRIVER);
                   }
+                if (user_ob->interactive != ip)
+                  return;	/* process_input() destructed or disconnected the user: ip is gone */
                 if (ip->text_start == ip->text_end)
                   {
                     ip->text_start = 0;
